@@ -7,7 +7,7 @@ export GOFLAGS=-mod=mod GOPROXY=off GOSUMDB=off GOTOOLCHAIN=local
 mkdir -p .build evidence replays
 cp /repo/go.sum harness/go.sum
 (cd harness && go build -o ../.build/verifh ./cmd/verifh)
-.build/verifh facts -repo /repo -out coq/Extracted -json .build/facts.json
+.build/verifh facts -repo /repo -out coq/Extracted -json .build/facts.json -for all
 (cd coq && coq_makefile -f _CoqProject -o Makefile > /dev/null && make -j16 > ../.build/coq-setup.log 2>&1 || { tail -40 ../.build/coq-setup.log; exit 1; })
 driver/build.sh
 echo "setup ok"
